@@ -327,13 +327,16 @@ class Sim:
         cur = self.current
         v = self.version
         if cur.polls.get(site) == v:
-            others = any(t is not cur and t.state != DONE for t in self.tasks) \
-                or bool(self.timers)
-            if others:
+            def others():
+                return any(t is not cur and t.state != DONE
+                           for t in self.tasks) or bool(self.timers)
+            if others():
                 self.stats["parked_polls"] += 1
                 cur.state = BLOCKED
                 cur.wake = None
-                cur.pred = lambda: self.version != v
+                # wake when the world changed - or when nothing is left that
+                # could change it (then the poll simply repeats itself)
+                cur.pred = lambda: self.version != v or not others()
                 self._switch(cur, "park:" + site)
                 cur.polls[site] = self.version
                 return
